@@ -434,6 +434,83 @@ pub fn c15(ctx: &mut Ctx) {
         }
         home_case(l, f, &body, 0);
     });
+    // iterator call histories on the FCI iterators: every sequence of next / nth / take-count calls up to a depth,
+    // then collect / count / last, against the entry list plain next() calls give (compared with the reference
+    // decoder first)
+    {
+        let depth = ctx.tier.pick(3u32, 4u32);
+        let nack_lists: Vec<Vec<u32>> = vec![
+            vec![0x0064_0001, 0x0065_0000],
+            vec![0x0005_FFFF, 0x0028_8001, 0xFFFF_0001],
+            vec![0x1234_0000],
+            vec![0xFFF0_FFFF, 0x0000_0000, 0x0001_8000, 0x7FFF_0101, 0x8000_FFFE],
+            vec![],
+        ];
+        ctx.bound("iterator histories", format!("Nack::entries over 5 word lists, Fir::entries and Sli::lost_macroblocks over 0..=5 entries: all call sequences of length <= {} over {{next, nth(0), nth(1), nth(2), nth(7), take(2).count()}} x 4 endings", depth));
+        let nl = nack_lists.len() as u64;
+        ctx.run_space("iterator-histories", nl + 6 + 6, move |idx, l| {
+            l.evals += 1;
+            let body: Vec<u8>;
+            let which;
+            if idx < nl {
+                body = nack_lists[idx as usize].iter().flat_map(|w| w.to_be_bytes()).collect();
+                which = F::Nack;
+            } else if idx < nl + 6 {
+                body = (0..(idx - nl) * 8).map(|i| (i as u8).wrapping_mul(37).wrapping_add(1)).collect();
+                which = F::Fir;
+            } else {
+                body = (0..(idx - nl - 6) * 4).map(|i| (i as u8).wrapping_mul(91).wrapping_add(3)).collect();
+                which = F::Sli;
+            }
+            l.sample(|| format!("iterator histories on {} fci {}", which.name(), hex_short(&body)));
+            l.nontrivial(crate::engine::run::fp_combine(fp_bytes(&body), 0x17E4 + which as u64));
+            let show = || format!("{} fci {}", which.name(), hex_short(&body));
+            let cap = 17 * body.len() + 8;
+            let r = guard::catch(|| -> Result<(), String> {
+                use super::common::{iterator_histories, iterator_reference};
+                match which {
+                    F::Nack => {
+                        let x = <Nack as FciParser>::parse(&body).map_err(|e| format!("{:?}", e))?;
+                        let reference = iterator_reference(x.entries(), cap);
+                        let want: Vec<u64> = read::nack_unpack(&body).iter().map(|v| crate::engine::run::fp_debug(v)).collect();
+                        if reference != want {
+                            return Err("entries() differs from the reference decoding".into());
+                        }
+                        iterator_histories(l, "Nack::entries", &|| x.entries(), &reference, depth, &show);
+                    }
+                    F::Fir => {
+                        if body.is_empty() {
+                            return Ok(());
+                        }
+                        let x = <Fir as FciParser>::parse(&body).map_err(|e| format!("{:?}", e))?;
+                        let reference = iterator_reference(x.entries(), cap);
+                        if reference.len() != body.len() / 8 {
+                            return Err(format!("entries() yields {} entries for {} bytes", reference.len(), body.len()));
+                        }
+                        iterator_histories(l, "Fir::entries", &|| x.entries(), &reference, depth, &show);
+                    }
+                    _ => {
+                        if body.is_empty() {
+                            return Ok(());
+                        }
+                        let x = <Sli as FciParser>::parse(&body).map_err(|e| format!("{:?}", e))?;
+                        let reference = iterator_reference(x.lost_macroblocks(), cap);
+                        if reference.len() != body.len() / 4 {
+                            return Err(format!("lost_macroblocks() yields {} entries for {} bytes", reference.len(), body.len()));
+                        }
+                        iterator_histories(l, "Sli::lost_macroblocks", &|| x.lost_macroblocks(), &reference, depth, &show);
+                    }
+                }
+                Ok(())
+            });
+            match r {
+                Err(pi) => l.subject_panic("iterator-history", &pi, show),
+                Ok(Err(m)) => l.violation("iterator-history:setup", show, || m),
+                Ok(Ok(())) => {}
+            }
+        });
+        ctx.require_hit("iterator history agrees with repeated next()");
+    }
     // direct FCI parsers
     let sp = bytes::fci_raw_space();
     let get = &sp.get;
